@@ -111,7 +111,7 @@ func (w *World) funcWrites(fn *ssa.Function) map[string]bool {
 	if writeSetBusy[fn] {
 		return map[string]bool{} // recursion: fixpoint reached through the outer call
 	}
-	if blk := w.specs.get("extern", fnName(fn)); blk != nil || len(fn.Blocks) == 0 {
+	if blk := w.specs.get("extern", fnName(fn)); blk != nil || len(fn.Blocks) == 0 || !w.inPackage(fn) {
 		out := map[string]bool{}
 		if blk != nil {
 			for _, c := range blk.Clauses {
@@ -283,7 +283,7 @@ func (ex *Exec) callFunction(fr *Frame, st *State, fn *ssa.Function, args []SVal
 		ex.applyContract(fr, st, blk, name, fn.Signature, args, nil, ex.w.funcWrites(fn), pos, k)
 		return
 	}
-	if len(fn.Blocks) == 0 {
+	if len(fn.Blocks) == 0 || !ex.w.inPackage(fn) {
 		ex.errorf("%s: call of external %s without extern contract", fnName(fr.fn), name)
 		ex.havocWrites(st, map[string]bool{"alloc": true}, nil, nil)
 		k(st, ex.havocResult(st, fn.Signature.Results()))
@@ -428,7 +428,7 @@ func (ex *Exec) listedRef(item string, ctx *EvalCtx) (string, error) {
 		if err != nil {
 			return "", err
 		}
-		return sArr(v.T), nil
+		return "elems:" + sArr(v.T), nil
 	}
 	if strings.HasPrefix(item, "obj(") && strings.HasSuffix(item, ")") {
 		e, err := parseExpr(item[len("obj(") : len(item)-1])
@@ -484,12 +484,15 @@ func (ex *Exec) applyContract(fr *Frame, st *State, blk *Block, name string, sig
 			ex.check(fr, st, "pre", short, pos, t)
 		}
 	}
-	listed := ex.listedRefs(blk, ctx)
+	listedRaw := ex.listedRefs(blk, ctx)
 	mine := ex.heapTerm(st, ex.w.ghostHeap("G_mine"))
-	for _, r := range listed {
-		ex.check(fr, st, "frame-call", short, pos, sel(mine, r))
+	var listed []string
+	for _, r := range listedRaw {
+		ex.check(fr, st, "frame-call", short, pos, listedPermission(mine, r))
+		listed = append(listed, strings.TrimPrefix(r, "elems:"))
 	}
 	var released []string
+	var releasedConds []string
 	for _, c := range blk.Clauses {
 		if c.Kind == "releases" {
 			v, err := ctx.evalAny(c.E)
@@ -497,26 +500,29 @@ func (ex *Exec) applyContract(fr *Frame, st *State, blk *Block, name string, sig
 				ex.errorf("%s: releases: %v", name, err)
 				continue
 			}
+			cond := "true"
+			if c.When != nil {
+				ct, err := ctx.evalBool(c.When)
+				if err != nil {
+					ex.errorf("%s: releases when: %v", name, err)
+					continue
+				}
+				cond = ct
+			}
 			held := ex.heapTerm(st, ex.w.ghostHeap("G_held"))
 			esc := ex.heapTerm(st, ex.w.ghostHeap("G_esc"))
-			ex.check(fr, st, "use-after-put", "release:"+short, pos, sel(held, v.T))
-			ps, err2 := func() (cv CV, err error) {
-				defer func() {
-					if r := recover(); r != nil {
-						err = fmt.Errorf("%v", r)
-					}
-				}()
-				return ctx.poolSlice(v), nil
-			}()
+			ex.check(fr, st, "use-after-put", "release:"+short, pos, implies(cond, sel(held, v.T)))
 			released = append(released, v.T)
-			if err2 == nil {
-				ex.check(fr, st, "escape", "release:"+short, pos, not(sel(esc, sArr(ps.T))))
+			releasedConds = append(releasedConds, cond)
+			if ps, err2 := safePoolSlice(ctx, v); err2 == nil {
+				ex.check(fr, st, "escape", "release:"+short, pos, implies(cond, or(eq(sArr(ps.T), "0"), not(sel(esc, sArr(ps.T))))))
 				released = append(released, sArr(ps.T))
+				releasedConds = append(releasedConds, cond)
 			}
 		}
 	}
 	// decreases: recursive calls must decrease the measure of the function under contract
-	if callee := ex.calleeOf(blk); callee != nil && ex.sameSCC(callee) {
+	if ex.recursiveWith(blk, recvT) {
 		ex.checkDecreases(fr, st, blk, ctx, pos, short)
 	}
 	// havoc
@@ -528,14 +534,20 @@ func (ex *Exec) applyContract(fr *Frame, st *State, blk *Block, name string, sig
 	}
 	if !pure {
 		all := append(append([]string(nil), listed...), released...)
+		if len(released) > 0 {
+			w2 := map[string]bool{}
+			for h := range writes {
+				w2[h] = true
+			}
+			w2[ex.w.ghostHeap("G_held")] = true
+			w2[ex.w.ghostHeap("G_mine")] = true
+			writes = w2
+		}
 		ex.havocWrites(st, writes, all, released)
-		for _, r := range released {
+		for i, r := range released {
 			// released objects are no longer held / owned
 			hH, mH := ex.w.ghostHeap("G_held"), ex.w.ghostHeap("G_mine")
-			ex.havocIfUntouched(st, hH, writes)
-			ex.havocIfUntouched(st, mH, writes)
-			st.assume(not(sel(ex.heapTerm(st, hH), r)))
-			st.assume(not(sel(ex.heapTerm(st, mH), r)))
+			st.assume(implies(and(releasedConds[i], not(eq(r, "0"))), and(not(sel(ex.heapTerm(st, hH), r)), not(sel(ex.heapTerm(st, mH), r)))))
 		}
 	}
 	res := ex.havocResult(st, sig.Results())
@@ -619,6 +631,30 @@ func (ex *Exec) havocIfUntouched(st *State, h string, writes map[string]bool) {
 	_ = nw
 }
 
+// recursiveWith: can a call through this contract re-enter the function under verification?
+func (ex *Exec) recursiveWith(blk *Block, recvT types.Type) bool {
+	if ex.fn == nil {
+		return false
+	}
+	switch blk.Kind {
+	case "func":
+		if callee := ex.w.funcByName[blk.Name]; callee != nil {
+			return ex.sameSCC(callee)
+		}
+	case "interface":
+		if recvT == nil {
+			return false
+		}
+		k := strings.LastIndex(blk.Name, ".")
+		for _, impl := range ex.w.implementations(recvT, blk.Name[k+1:]) {
+			if ex.sameSCC(impl) {
+				return true
+			}
+		}
+	}
+	return false
+}
+
 func (ex *Exec) calleeOf(blk *Block) *ssa.Function {
 	if blk.Kind != "func" {
 		return nil
@@ -668,7 +704,7 @@ func (ex *Exec) doBuiltin(fr *Frame, st *State, site ssa.Instruction, b *ssa.Bui
 			_, _, lh := ex.mapHeaps(st)
 			n := ex.fresh("maplen", "Int")
 			st.assume(eq(n, ite(eq(args[0].T, "0"), "0", sel(lh, args[0].T))))
-			st.assume(le("0", n))
+			st.assume(and(le("0", n), le(n, maxInt64)))
 			k(st, SVal{T: n})
 		default:
 			ex.errorf("len of %s", c.Args[0].Type())
@@ -710,23 +746,29 @@ func (ex *Exec) doAppend(fr *Frame, st *State, c *ssa.CallCommon, args []SVal, p
 	ex.check(fr, st, "frame-store", "append", pos, implies(and(inPlace, lt("0", n)), sel(mine, sArr(s))))
 	old := ex.heapTerm(st, h)
 	fresh := ex.newRef(st, "apparr")
+	st.assume(eq("(rtype "+fresh+")", fmt.Sprint(ex.w.typeID("[]"+ex.w.sortOf(u.Elem())))))
 	res := ex.fresh("appres", "Slice")
 	newCap := ex.fresh("appcap", "Int")
 	st.assume(ite(inPlace,
 		eq(res, mkSlice(sArr(s), sOff(s), newLen, sCap(s))),
-		and(eq(res, mkSlice(fresh, "0", newLen, newCap)), le(newLen, newCap))))
+		and(eq(res, mkSlice(fresh, "0", newLen, newCap)), le(newLen, newCap), le(newCap, maxInt64))))
 	nw := ex.havocHeap(st, h)
 	tgt := sArr(res)
-	off := sOff(res)
 	// all other arrays unchanged
 	st.assume(fmt.Sprintf("(forall ((a Int)) (! (=> (not (= a %s)) (= (select %s a) (select %s a))) :pattern ((select %s a))))", tgt, nw, old, nw))
-	// target array: old prefix (copied or kept), appended elements, rest unchanged when in place
-	st.assume(fmt.Sprintf("(forall ((j Int)) (! (=> (and (<= 0 j) (< j %s)) (= (select (select %s %s) (+ %s j)) (select (select %s %s) (+ %s j)))) :pattern ((select (select %s %s) (+ %s j)))))",
-		sLen(s), nw, tgt, off, old, sArr(s), sOff(s), nw, tgt, off))
-	st.assume(fmt.Sprintf("(forall ((j Int)) (! (=> (and (<= 0 j) (< j %s)) (= (select (select %s %s) (+ %s %s j)) (select (select %s %s) (+ %s j)))) :pattern ((select (select %s %s) (+ %s %s j)))))",
-		n, nw, tgt, off, sLen(s), old, sArr(t), sOff(t), nw, tgt, off, sLen(s)))
-	st.assume(implies(inPlace, fmt.Sprintf("(forall ((j Int)) (! (=> (or (< j %s) (>= j (+ %s %s))) (= (select (select %s %s) j) (select (select %s %s) j))) :pattern ((select (select %s %s) j))))",
-		sOff(s), sOff(s), newLen, nw, tgt, old, tgt, nw, tgt)))
+	nt := fmt.Sprintf("(select %s %s)", nw, tgt)
+	pat := fmt.Sprintf(":pattern ((select %s i))", nt)
+	base := add(sOff(s), sLen(s)) // first appended position when in place
+	// in place: everything outside the appended window keeps its value; the window holds t
+	st.assume(implies(inPlace, fmt.Sprintf("(forall ((i Int)) (! (=> (or (< i %s) (>= i (+ %s %s))) (= (select %s i) (select (select %s %s) i))) %s))",
+		base, base, n, nt, old, sArr(s), pat)))
+	st.assume(implies(inPlace, fmt.Sprintf("(forall ((i Int)) (! (=> (and (<= %s i) (< i (+ %s %s))) (= (select %s i) (select (select %s %s) (+ %s (- i %s))))) %s))",
+		base, base, n, nt, old, sArr(t), sOff(t), base, pat)))
+	// reallocated: copy of s at offset 0, then t
+	st.assume(implies(not(inPlace), fmt.Sprintf("(forall ((i Int)) (! (=> (and (<= 0 i) (< i %s)) (= (select %s i) (select (select %s %s) (+ %s i)))) %s))",
+		sLen(s), nt, old, sArr(s), sOff(s), pat)))
+	st.assume(implies(not(inPlace), fmt.Sprintf("(forall ((i Int)) (! (=> (and (<= %s i) (< i %s)) (= (select %s i) (select (select %s %s) (+ %s (- i %s))))) %s))",
+		sLen(s), newLen, nt, old, sArr(t), sOff(t), sLen(s), pat)))
 	return SVal{T: res}
 }
 
@@ -852,4 +894,37 @@ func (w *World) callees(f *ssa.Function) []*ssa.Function {
 	sort.Slice(out, func(i, j int) bool { return out[i].String() < out[j].String() })
 	calleesMemo[f] = out
 	return out
+}
+
+// listedPermission: what a caller must hold to lend a listed location to a callee.
+// A backing array may also be nil or read-only: the callee then cannot write it (its own
+// frame-store obligations need ownership), and the frame keeps read-only arrays unchanged.
+func listedPermission(mine, r string) string {
+	if strings.HasPrefix(r, "elems:") {
+		a := strings.TrimPrefix(r, "elems:")
+		return or(eq(a, "0"), sel(mine, a), "(RO "+a+")")
+	}
+	return sel(mine, r)
+}
+
+func (w *World) inPackage(fn *ssa.Function) bool {
+	for f := fn; f != nil; f = f.Parent() {
+		if f.Pkg == w.pkg {
+			return true
+		}
+		if f.Pkg != nil {
+			return false
+		}
+	}
+	// synthetic wrappers have no package: accept those whose receiver type is declared here
+	if fn.Signature.Recv() != nil {
+		t := fn.Signature.Recv().Type()
+		if p, ok := t.(*types.Pointer); ok {
+			t = p.Elem()
+		}
+		if n, ok := t.(*types.Named); ok && n.Obj().Pkg() == w.pkg.Pkg {
+			return true
+		}
+	}
+	return false
 }
